@@ -390,6 +390,16 @@ func c11History(r *hx.R, root string, idx int, tier string, st *c11Stats) hx.Cas
 	}()
 	if holdDir < 0 {
 		<-created
+		if r.Chance(0.25) {
+			// the same cache reconfigured before the history starts (automatic refresh off and on again, same directories):
+			// it must watch again exactly like a new one; the machine starts from the same state
+			_ = cache.Configure(cdi.WithAutoRefresh(false))
+			if r.Chance(0.5) {
+				_ = cache.Configure(cdi.WithAutoRefresh(false))
+			}
+			_ = cache.Configure(cdi.WithAutoRefresh(true))
+			st.tails["reconfigured off/on before the history"]++
+		}
 	}
 	defer func() {
 		if cache != nil {
